@@ -44,6 +44,7 @@ FEATURES = [
     "TRAILING_UNDERSCORE",
     "DOC_TYPE_MISMATCH",
     "INIT_DEFINED",
+    "NC_PAIRS",
 ]
 
 DOC_STYLES = ["PLAINTEXT", "NUMPYDOC", "GOOGLE", "REST"]
@@ -891,6 +892,19 @@ class PackageGenerator:
                 self.inits[f"{top}.{other}"].append(f"from {pk} import InitThing")
                 mo_ = self.new_module(f"{top}.{other}", f"beside_{other.strip('_')}")
                 mo_.body.append(self.gen_function(mo_, f"beside_{other.strip('_')}_fn", mo_.qname))
+
+        if self.f("NC_PAIRS"):
+            # declarations whose Python names differ only by underscores / case / a leading underscore, re-exported into ONE package
+            mn = self.new_module(f"{top}.{sub_a}", "_nc_pairs")
+            for fn_ in ("data_set", "dataSet", "make_item_x", "makeItemX"):
+                mn.body.append(self.gen_function(mn, fn_, mn.qname))
+            mn.body.append(self.gen_class(mn, "HTTPClient", None, n_methods=1))
+            mn.body.append(self.gen_class(mn, "HttpClient", None, n_methods=1))
+            mn.body.append(self.gen_class(mn, "_PairWorker", None, n_methods=1))
+            mn.body.append(self.gen_function(mn, "PairWorker", mn.qname))
+            mn.all_classes += ["HTTPClient", "HttpClient", "_PairWorker"]
+            for nm in ("data_set", "dataSet", "make_item_x", "makeItemX", "HTTPClient", "HttpClient", "_PairWorker", "PairWorker"):
+                self.inits[f"{top}.{sub_a}"].append(f"from {mn.qname} import {nm}")
 
         if self.f("TRAILING_UNDERSCORE"):
             # names that end in underscores (the usual way to avoid keywords/builtins): modules, re-exported declarations
